@@ -28,6 +28,8 @@ pub enum Exp {
     Alt(Vec<Exp>),
     /// a string that renders this value; float parts only have to parse back to the same bits
     Rendering(RV),
+    /// an error, or some contiguous piece of this string (never a made-up value)
+    ErrOrPieceOf(String),
 }
 
 impl Exp {
@@ -41,6 +43,7 @@ impl Exp {
             Exp::Any => "anything (unclaimed)".into(),
             Exp::Alt(v) => format!("one of [{}]", v.iter().map(|e| e.show()).collect::<Vec<_>>().join(" | ")),
             Exp::Rendering(v) => format!("a string rendering {}", v.show()),
+            Exp::ErrOrPieceOf(s) => format!("an error or a contiguous piece of {:?}", s),
         }
     }
     /// does the observed outcome (Ok(value) / Err) satisfy the expectation?
@@ -51,6 +54,8 @@ impl Exp {
             (Exp::V(v), Ok(g)) => v.same(g),
             (Exp::Alt(v), g) => v.iter().any(|e| e.accepts(g)),
             (Exp::Rendering(v), Ok(RV::Str(s))) => match_render(v, s),
+            (Exp::ErrOrPieceOf(_), Err(())) => true,
+            (Exp::ErrOrPieceOf(whole), Ok(RV::Str(s))) => whole.contains(s.as_str()),
             _ => false,
         }
     }
@@ -237,7 +242,8 @@ fn substring(v: &RV) -> Exp {
         if a < 0 || b < 0 || a > b || b as usize > s.len() {
             Exp::Err
         } else if !s.is_char_boundary(a as usize) || !s.is_char_boundary(b as usize) {
-            Exp::Any
+            // how a byte index inside a character is answered is not documented — but not with a made-up value
+            Exp::ErrOrPieceOf(s.clone())
         } else {
             Exp::V(RV::Str(s[a as usize..b as usize].to_string()))
         }
